@@ -61,7 +61,7 @@ def merge(scheds, rnd):
     return out
 
 
-def run_multi(binary, scenarios, test="TestMulti"):
+def run_multi(binary, scenarios, test="TestMulti", env=None):
     sc = vlib.scratch()
     parts = vlib.chunks(scenarios, vlib.NCPU)
 
@@ -69,7 +69,7 @@ def run_multi(binary, scenarios, test="TestMulti"):
         k, part = arg
         sp, tp, pp = (os.path.join(sc, "%s-%s-%d" % (test, x, k)) for x in ("sched", "trace", "prog"))
         json.dump(part, open(sp, "w"))
-        rc, out = vlib.run_driver(binary, {"VERIF_SCHED": sp, "VERIF_TRACE": tp, "VERIF_PROGRESS": pp}, run=test, timeout=900)
+        rc, out = vlib.run_driver(binary, dict(env or {}, VERIF_SCHED=sp, VERIF_TRACE=tp, VERIF_PROGRESS=pp), run=test, timeout=900)
         if rc != 0:
             raise vlib.Inconclusive("driver %s failed (rc=%d) at %s: %s" % (test, rc, open(pp).read() if os.path.exists(pp) else "?", out[-1500:]))
         return [json.loads(l) for l in open(tp)]
@@ -99,6 +99,30 @@ def outputs(tr):
     return out, (last["st"], last["ended"], last["bclosed"], json.dumps(last["reg"]))
 
 
+def handshakes(rnd, n):
+    """Groups of 2-3 sessions that all run a complete connect exchange (AUTH with their own credentials, will
+    topic and message of their own, different lengths) at the same time: every packet of one client is in flight
+    while the others' handlers hold credentials / will data they have not yet sent to the broker."""
+    from gw_scenarios import P, M, cfg
+    out = []
+    for i in range(n):
+        k = 2 if rnd.random() < 0.6 else 3
+        group = []
+        for j in range(k):
+            cid = "c%d" % (j + 1)
+            user, pw = "user%d" % j, "pw-%d-%s" % (j, "x" * rnd.choice([0, 3, 9]))
+            will = rnd.random() < 0.8
+            evs = [P("CONNECT", dur=2, cid=cid, clean=True, will=will),
+                   P("AUTH", method="PLAIN", plain=True, plainok=True, user=user, **{"pass": pw})]
+            if will:
+                evs += [P("WILLTOPIC", topic="will/%s/%s" % (cid, "t" * rnd.choice([1, 12, 30])), qos=1),
+                        P("WILLMSG", data="s:gone-%s-%s" % (cid, "m" * rnd.choice([0, 8, 14])))]
+            evs += [M("CONNACK", rc=0), P("PUBLISH", qos=0, tit=2, tid=24930, sname="ab", short=True, data="s:hello-" + cid)]
+            group.append({"cfg": cfg(auth=True), "events": evs, "tail": 25})
+        out.append(group)
+    return out
+
+
 def run(prop, tier, replay=None):
     t0 = time.time()
     rnd = random.Random(vlib.seed())
@@ -121,9 +145,10 @@ def run(prop, tier, replay=None):
             pool += gateway.to_scenarios(scheds, "C15-" + name, tail=25)
         multis, solos = [], []
         n_multi = 80 if tier == "quick" else 1500
-        for i in range(n_multi):
+        targeted = handshakes(rnd, 24 if tier == "quick" else 240)
+        for i in range(n_multi + len(targeted)):
             k = 2 if rnd.random() < 0.7 else 3
-            group = [rnd.choice(pool) for _ in range(k)]
+            group = targeted[i - n_multi] if i >= n_multi else [rnd.choice(pool) for _ in range(k)]
             # same configuration for all sessions of a gateway
             cfg = group[0]["cfg"]
             group = [g for g in group if g["cfg"]["auth"] == cfg["auth"] and g["cfg"]["hasuser"] == cfg["hasuser"]] or [group[0]]
@@ -133,7 +158,19 @@ def run(prop, tier, replay=None):
             for k2, g in enumerate(group):
                 solos.append({"id": "%s-solo%d" % (mid, k2), "cfg": cfg, "seed": 1, "sessions": 1,
                               "events": [dict(e, s=0) for e in merge([g["events"] + [{"e": "adv", "n": g["tail"]}]], rnd)], "tail": 5})
-    lines = run_multi(binary, multis) + run_multi(binary, solos)
+    # the same multi-session schedules once more with simultaneous events of different sessions processed
+    # concurrently (ids "...b"); one run on a single P (goroutines interleave only where they block: shared
+    # pools / caches hand objects from one session to the other), one on all Ps
+    bursts = []
+    if not replay or payload.get("burst"):
+        for m in multis:
+            if m["sessions"] > 1 and not m.get("burst"):
+                bursts.append(dict(m, id=m["id"] + "b", burst=True))
+    half = len(bursts) // 2
+    lines = (run_multi(binary, [m for m in multis if not m.get("burst")]) + run_multi(binary, solos)
+             + run_multi(binary, bursts[:half] + [m for m in multis if m.get("burst")], env={"GOMAXPROCS": "1"})
+             + run_multi(binary, bursts[half:]))
+    multis = multis + bursts
     by = {}
     for l in lines:
         by.setdefault(l["tr"], []).append(l)
@@ -151,17 +188,19 @@ def run(prop, tier, replay=None):
         if "-solo" in v["tr"] or v["tag"].startswith("desync/"):
             continue
         mid, k = v["tr"].split("#")
-        if v["tag"] in solo_tags.get("%s-solo%s" % (mid, k), set()):
+        base = mid[:-1] if mid.endswith("b") else mid
+        if v["tag"] in solo_tags.get("%s-solo%s" % (base, k), set()):
             continue       # the schedule breaks that property on its own: not an isolation matter
         violations.append({"sig": "C15/projection-violates/" + v["tag"], "what": "session %s line %d" % (v["tr"], v["i"]),
-                           "replay": {"multi": bym[mid], "solos": [s for s in solos if s["id"].startswith(mid + "-solo")],
+                           "replay": {"multi": bym[mid], "burst": mid.endswith("b"), "solos": [s for s in solos if s["id"].startswith(base + "-solo")],
                                       "trace": by[v["tr"]][:60]}})
     # differential oracle
     compared = 0
     for m in multis:
         for k in range(m["sessions"]):
+            base = m["id"][:-1] if m.get("burst") else m["id"]
             a = by.get("%s#%d" % (m["id"], k))
-            b = by.get("%s-solo%d#0" % (m["id"], k))
+            b = by.get("%s-solo%d#0" % (base, k))
             if not a or not b:
                 raise vlib.Inconclusive("missing trace for %s session %d" % (m["id"], k))
             compared += 1
@@ -171,7 +210,7 @@ def run(prop, tier, replay=None):
                 first = next((x for x, y in zip(oa, ob) if x != y), (oa + ob)[min(len(oa), len(ob))] if len(oa) != len(ob) else ("final",))
                 violations.append({"sig": "C15/projection-differs/" + ("output" if oa != ob else "final-state"),
                                    "what": "session %d of %s behaves differently next to the other sessions (first difference at %s)" % (k, m["id"], str(first)[:200]),
-                                   "replay": {"multi": m, "solos": [s for s in solos if s["id"].startswith(m["id"] + "-solo")],
+                                   "replay": {"multi": m, "burst": bool(m.get("burst")), "solos": [s for s in solos if s["id"].startswith(base + "-solo")],
                                               "with_others": oa[:40], "alone": ob[:40]}})
     code, n_new, n_known = vlib.verdict(prop, violations)
     cov = dict(states=states, transitions=transitions, traces_validated_against_impl=len(traces),
@@ -183,5 +222,6 @@ def run(prop, tier, replay=None):
     vlib.write_evidence(prop, tier, "model_checking", cov, time.time() - t0, violations=n_new,
                         assumptions=["sessions are created through the verif hook that mirrors Gateway.ListenAndServe's sharing "
                                      "(one handlerConfig, one predefined-topic map, one logger)",
-                                     "A-quiescent: events of different sessions are serialised by the step driver"])
+                                     "each multi-session schedule runs twice: events of different sessions serialised by the step driver, "
+                                     "and simultaneous events processed concurrently (burst runs, half of them with GOMAXPROCS=1)"])
     return code
